@@ -113,7 +113,7 @@ def generate(rng, idx, tier):
     ops = []
     n = 0
     maxn = rng.choice([3, 4, 5, 6])
-    wk = dict(new=2, edge=rng.choice([2, 3, 5]), dele=rng.choice([0, 1]), prt=rng.choice([2, 3]),
+    wk = dict(fan=rng.choice([0, 0, 1]), new=2, edge=rng.choice([2, 3, 5]), dele=rng.choice([0, 1]), prt=rng.choice([2, 3]),
               abort=rng.choice([0, 1, 2]), cc=rng.choice([0, 1]))
     bag = [k for k, c in sorted(wk.items()) for _ in range(c)]
     p_wrap = rng.choice([0.0, 0.0, 0.15, 0.4])
@@ -136,6 +136,9 @@ def generate(rng, idx, tier):
                 op.append(rng.choice(['note', 'a considerably longer note that will not fit on one short line at all',
                                       'back reference']))
             ops.append(op)
+        elif k == 'fan':
+            # enough leaves to cross the printer's long-sequence shortcut (> 50 elements)
+            ops.append(['fan', rng.randrange(n), rng.choice([52, 60])])
         elif k == 'dele':
             ops.append(['del', rng.randrange(n), rng.randrange(4)])
         elif k == 'prt':
@@ -352,6 +355,22 @@ def execute(spec):
                 setattr(t, 'k%02d' % len(vars(t)), c)
             else:
                 t.kids.append(c)
+            trace.append(op)
+        elif k == 'fan':
+            if not nodes:
+                continue
+            t = tgt(nodes[op[1] % len(nodes)])
+            for _ in range(op[2]):
+                leaf[0] += 1
+                if isinstance(t, (list, collections.deque)):
+                    t.append(leaf[0])
+                elif isinstance(t, dict):
+                    t['k%02d' % len(t)] = leaf[0]
+                elif isinstance(t, types.SimpleNamespace):
+                    setattr(t, 'k%02d' % len(vars(t)), leaf[0])
+                else:
+                    t.kids.append(leaf[0])
+            bump('fan_ops')
             trace.append(op)
         elif k == 'del':
             if not nodes:
